@@ -25,6 +25,7 @@ class SlotLoop:
         self.f = f
         self.g = CFG(f)
         self.ctx = ctx
+        self.prog = prog
         g = self.g
         # main loop: a `for` whose condition mentions member `l` of a parameter and whose body indexes attrs
         cands = []
@@ -119,6 +120,21 @@ class SlotLoop:
                         role, positive = a
                         val = lab if positive else (not lab)
                         oc[role] = val
+            if feasible:
+                # paths that contradict what their own statements establish (a pointer local set on the path and then tested for
+                # null, the same test on unchanged values with two outcomes) are infeasible
+                try:
+                    from . import grpdom
+                    seg, conds = grpdom.run_path(self.prog, self.f, g, p)
+                    if seg is None:
+                        feasible = False
+                    else:
+                        seen = {}
+                        for (k, lab) in conds:
+                            if k[0] in ('cmp', 'truth') and seen.setdefault(k, lab) != lab:
+                                feasible = False
+                except Exception:
+                    pass
             if feasible:
                 out.append((p, oc))
         return out
@@ -224,8 +240,9 @@ def rule_hidden(ctx, cfg, prog):
                    '%s: on the loop path [%s] (attribute marked omitFromKeys) key material is written %s / a free slot is emitted (%d): '
                    'a hidden slot must contribute neither to the key nor a delegation component' % (name, fmt_oc(oc), eff, jinc), cfg=cfg,
                    sample=dict(config=cfg, function=name, hidden_path=fmt_oc(oc)))
-        ctx.ob('R-HIDDEN', hidden_paths >= 1, 'hidden|%s|tested' % name, loc_str(sl.loop),
-               '%s never tests omitFromKeys of the matched attribute: hidden attributes are treated like ordinary ones' % name, cfg=cfg)
+        # "the flag is looked at on every matched path" is decided by R-SCHEME on values (robust to the flag being read through a pointer
+        # local); here only the paths on which this rule recognises the test are examined
+        ctx.count('R-HIDDEN recognised hidden paths[%s|%s]' % (name, cfg), hidden_paths)
         # a non-hidden matched attribute contributes h[i]^id (the visible case must still bind the attribute)
         bound = 0
         for (p, oc) in sl.body_paths():
